@@ -301,6 +301,22 @@ func (n *Node) CompareUtxo(chain *blockchain.BlockChain, tip *MBlock) string {
 	return ""
 }
 
+// prunedFn is nil on an unpruned node; on a pruned one it tells whether the
+// block data (and with it the spend journal) of h was deleted.
+func (n *Node) prunedFn() func(h chainhash.Hash) bool {
+	if n.cfg.Prune == 0 {
+		return nil
+	}
+	return func(h chainhash.Hash) bool {
+		have := false
+		n.db.View(func(tx database.Tx) error {
+			have, _ = tx.HasBlock(&h)
+			return nil
+		})
+		return !have
+	}
+}
+
 // CompareJournal checks the spend journal of every main-chain block.
 func (n *Node) CompareJournal(chain *blockchain.BlockChain, tip *MBlock, pruned func(h chainhash.Hash) bool) string {
 	for b := tip; b != nil && b.Height > 0; b = b.Parent {
